@@ -47,10 +47,10 @@ PROPS['C01'] = dict(
 NOT_APPLICABLE = {}
 
 PROPS['C06'] = dict(
-    theorems=['pool_invariant', 'get_unique_or_exhausted', 'get_removes_exactly_v', 'put_frees_exactly_x'],
+    theorems=['pool_invariant', 'get_unique_or_exhausted', 'get_removes_exactly_v', 'put_frees_exactly_x', 'inflight_identifiers_unique_and_never_leak'],
     families=[dict(name='idpool', corr='IdPool', runs=[('bfs', 1, 1), ('random', 120, 2000)]),
               dict(name='broker', corr='Broker', runs=[('acks', 32, 400)], par=8)],
-    level_text='Theorems: in every state reachable by any Get/Put history the free-interval list is sorted, disjoint, in range and denotes exactly the range minus the outstanding identifiers; Get returns a free in-range identifier or reports exhaustion iff none is free; Put frees exactly the given in-range identifier and is a no-op otherwise. The model is compared with the Go pool on every transition of every reachable state of small ranges and on seeded histories of the production range, including the interval list after every call and panics.',
+    level_text='Theorems: in every state reachable by any Get/Put history the free-interval list is sorted, disjoint, in range and denotes exactly the range minus the outstanding identifiers; Get returns a free in-range identifier or reports exhaustion iff none is free; Put frees exactly the given in-range identifier and is a no-op otherwise. At node level (Proofs/IdsFacts.v): in every cluster state reachable by any history of client packets, connection events, sweeps, gossip and peer failures, the identifiers of the outbound in-flight entries of each node are pairwise distinct, lie in 1..65535, and an identifier of that range is free in the pool exactly when no entry holds it; the identifier the writer picks next differs from all of them. The model is compared with the Go pool on every transition of every reachable state of small ranges and on seeded histories of the production range, including the interval list after every call and panics.',
     level_note='Trusted: Coq kernel + vm_compute; harness (verif hook exposing the unexported pool), emitter, evaluator. The model follows Put\'s case analysis as a structural recursion, not statement by statement: absence of panics in the Go code is observed by the harness (recover), not proved. The exhaustion marker -1 requires min >= 0 (wasp uses 0).',
     rule='bfs: breadth-first enumeration of all reachable free-list states for ranges [0,3],[1,4],[0,4] (thorough: also [1,6],[0,6]); every Get and every Put x, x in [min-1,max+1], from every state is one case (the path to the state plus the transition); random: 150-400 calls on 0..65535 and on small ranges with 10% free/unknown and 10% out-of-range releases. Non-trivial: at least one Get and one Put.',
     assumptions=['int32 arithmetic does not overflow for ranges within 0..65535'],
@@ -132,8 +132,8 @@ PROPS['C02'] = dict(theorems=['acked_implies_stored', 'nothing_skipped', 'stored
     level_text="Theorems (node model): the acknowledgement is emitted only after every destination log accepted the message; the log consumer hands every stored entry, offset 0 included, to the writer; a stored entry is written with topic and payload intact to exactly the recipients in the registry. Tied to the Go code by end-to-end scripts on a real node with a real message log (publishers, subscribers, QoS mix, retained clears, a subscriber whose writes fail), compared step by step with the model. Segment rolls and truncation are covered by C15's consumer model and the thorough tier's 520-publish runs.",
     level_note=_E2E_NOTE,
     families=[_broker([('pipeline', 40, 400)]), dict(name='crash', corr='Consumer', runs=[('edges', 16, 160)], par=8)], rule='pipeline: 1-3 publishers and subscribers, 1-12 publishes (QoS mix) from the very first log entry on; thorough: every 8th case 520 publishes (segment roll).')
-PROPS['C03'] = dict(theorems=['qos1_retransmit', 'qos2_publish_phase', 'qos2_pubrec_then_pubrel', 'qos2_pubrel_phase', 'completion_frees', 'wrong_ack_harmless'],
-    level_text='Theorems (node model): an expired QoS 1 PUBLISH / QoS 2 PUBLISH / PUBREL of a live session is written again with the same identifier and re-armed; PUBREC moves a QoS 2 delivery to its PUBREL phase; the completing acknowledgement, or expiry after the session ended, sends nothing and returns the identifier to the pool; an acknowledgement of the wrong type or for an unknown identifier changes nothing. Tied to the Go writer and in-flight queue by end-to-end scripts (acknowledge / stay silent for sweeps / wrong type / unknown identifier / session end, interleaved over 1-3 sessions) compared step by step, identifiers as per-step multisets.',
+PROPS['C03'] = dict(theorems=['qos1_retransmit', 'qos2_publish_phase', 'qos2_pubrec_then_pubrel', 'qos2_pubrel_phase', 'completion_frees', 'wrong_ack_harmless', 'retransmitted_every_sweep', 'ended_session_frees_identifier'],
+    level_text='Theorems (node model): an expired QoS 1 PUBLISH / QoS 2 PUBLISH / PUBREL of a live session is written again with the same identifier and re-armed; PUBREC moves a QoS 2 delivery to its PUBREL phase; the completing acknowledgement, or expiry after the session ended, sends nothing and returns the identifier to the pool; an acknowledgement of the wrong type or for an unknown identifier changes nothing. Over histories (Proofs/RetransmitFacts.v): in every reachable cluster state a sweep re-sends every pending delivery of a registered session with the same packet and leaves it pending under the same key and tag, and for an entry of a vanished session it leaves nothing holding the identifier and the pool has it back. Tied to the Go writer and in-flight queue by end-to-end scripts (acknowledge / stay silent for sweeps / wrong type / unknown identifier / session end, interleaved over 1-3 sessions) compared step by step, identifiers as per-step multisets.',
     level_note=_E2E_NOTE,
     families=[_broker([('acks', 64, 800)])], rule='acks: 1-3 sessions subscribed at QoS 1/2, 1-4 messages, per in-flight message the client acknowledges / stays silent for sweeps / answers with the wrong type or an unknown identifier / ends its session, interleaved; then a fresh subscriber shows which identifiers are reusable.')
 PROPS['C05'] = dict(theorems=['stored_iff_reported_ok', 'ack_after_store', 'qos2_never_on_publish_alone', 'qos2_not_again'],
@@ -144,8 +144,8 @@ PROPS['C11'] = dict(theorems=['ends_only_for_cause', 'end_leaves_registry', 'end
     level_text="Theorems (node model): a connection is closed only in a step whose event is a cause (CONNECT that cannot be set up, rejected packet, PINGREQ of a displaced session, DISCONNECT, loss, read deadline) - never by subscribes, acknowledgements, sweeps, gossip, peer failures, injected faults or the delivery pipeline; ending a session removes it from the registry and closes its connection. The removal of records and subscriptions from every node's view and the armed 2 x keep-alive deadline are validated end-to-end (listings of every node after gossip; deadline in force after CONNACK and after every packet) on 1-3 nodes, including peer failure.",
     level_note=_E2E_NOTE,
     families=[_broker([('lifecycle', 48, 600), ('takeover', 24, 300), ('peerfail', 8, 64)])], rule='lifecycle: 1-2 nodes, sessions with subscribe/unsubscribe/ping/publish ending by DISCONNECT, EOF, read deadline, protocol error or staying connected; refused CONNECTs; listings at the end.')
-PROPS['C12'] = dict(theorems=['teardown_spares_new', 'teardown_keeps_records'],
-    level_text='Theorems (node model): tearing down a displaced session changes no session record, publishes no will and closes only its own connection. That the new session is established and resolves everywhere, and that the old one stops at its next PINGREQ, is validated end-to-end on 1-3 nodes (chains of connections, gossip orders incl. tombstone-before-creation, same identifier in another mount point) against the model; partial: the history-level statement takeover_established is not proved.',
+PROPS['C12'] = dict(theorems=['teardown_spares_new', 'teardown_keeps_records', 'new_session_established', 'every_node_resolves_new', 'displaced_stops_being_served', 'live_session_is_served'],
+    level_text='Theorems (node model): tearing down a displaced session changes no session record, publishes no will and closes only its own connection. A CONNECT whose identifier is in use (fresh session id, well-formed strings, node clock above the replaced record stamp, identifier resolving to at most one session before) tombstones the old record, stores the new one, registers the session, writes CONNACK 0, and the identifier resolves to exactly the new session on the serving node and on every node that merges the two broadcasts from an agreeing view (composition with C09); a PINGREQ on a session whose identifier resolves elsewhere or to nothing is answered by closing and nothing else, the live one gets PINGRESP with the state unchanged. Validated end-to-end on 1-3 nodes (chains of connections, gossip orders incl. tombstone-before-creation, same identifier in another mount point).',
     level_note=_E2E_NOTE,
     families=[_broker([('takeover', 40, 500), ('takeover3', 8, 40)])], rule='takeover: chains of 2-3 connections sharing a client identifier on 1-2 nodes, old sessions ping/subscribe/disconnect/lose the connection, gossip in between; a connection with the same identifier in another mount point.')
 PROPS['C13'] = dict(theorems=['will_on_unclean_end', 'no_will_after_disconnect', 'no_will_without_lwt'],
